@@ -50,6 +50,10 @@ var scenarios = []scenario{
 	{Name: "confirms||top,account", Prefix: []string{"ins a1"}, Threads: [][]string{{"cf a1 1"}, {"top a1", "acct"}}, BoundQuick: 2, BoundThor: 3, ShardsQuick: 1, ShardsThor: 2},
 	{Name: "batch-task||tryconfirm", Prefix: []string{"ins a1", "ins b1", "ins b2", "cf b2 0,1"}, Threads: [][]string{{"ins b3"}}, LastPrefixBG: true, BoundQuick: 2, BoundThor: 3, ShardsQuick: 3, ShardsThor: 4},
 	{Name: "confirms||confirms", Prefix: []string{"ins a1"}, Threads: [][]string{{"cf a1 1"}, {"cf a1 2"}}, BoundQuick: 2, BoundThor: 3, ShardsQuick: 2, ShardsThor: 3},
+	{Name: "insert||confirms-of-it", Prefix: []string{"ins a1"}, Threads: [][]string{{"ins a2"}, {"cf a2 0,2"}}, BoundQuick: 2, BoundThor: 3, ShardsQuick: 2, ShardsThor: 4},
+	{Name: "mine||confirms", Prefix: []string{"pool", "ins a1"}, Threads: [][]string{{"mine"}, {"cf a1 1"}}, BoundQuick: 2, BoundThor: 3, ShardsQuick: 2, ShardsThor: 4},
+	{Name: "confirms||top30", Prefix: []string{"ins a1"}, Threads: [][]string{{"cf a1 1"}, {"top30"}}, BoundQuick: 2, BoundThor: 3, ShardsQuick: 1, ShardsThor: 2},
+	{Name: "confirms||blockat", Prefix: []string{"ins a1"}, Threads: [][]string{{"cf a1 1"}, {"blockat 1"}}, BoundQuick: 2, BoundThor: 3, ShardsQuick: 1, ShardsThor: 2},
 	{Name: "insert||confirms||getconfirms", Prefix: []string{"ins a1"}, Threads: [][]string{{"ins a2"}, {"cf a1 1"}, {"confirms a1"}}, BoundQuick: 1, BoundThor: 2, ShardsQuick: 2, ShardsThor: 4},
 }
 
@@ -266,7 +270,7 @@ func (sc *scenario) explore(r *core.Result, shard, nshards int, seeds []string) 
 		}
 		return info(site).Expr == "RW"
 	}
-	learnBudget := 60 // executions of the deterministic learning phase (identical in every shard)
+	learnBudget := 120 // executions of the deterministic learning phase (identical in every shard)
 	var cur *inst
 	var curBG []bgTask
 	for {
@@ -274,7 +278,7 @@ func (sc *scenario) explore(r *core.Result, shard, nshards int, seeds []string) 
 		learning := true
 		execsInPhase := 0
 		var added []string
-		ex := &sched.XExplorer{Bound: sc.bound(), Deadline: core.OutOfTime}
+		ex := &sched.XExplorer{Bound: sc.bound(), Deadline: core.OutOfTime, Alternate: true}
 		ex.Cfg = sched.XCfg{Watchdog: watchdog, Learn: true, AtomicLoad: atomicLoad, ReadSection: readSection,
 			Branch: func(site string, kind sched.OpKind) bool { return branch[sched.BranchKey(site, kind)] }}
 		ex.Setup = func(s *sched.Sched) func(*sched.XExec, []sched.XChoice) {
@@ -418,7 +422,10 @@ func (sc *scenario) check(r *core.Result, st *scStats, seq seqResult, in *inst, 
 	}
 	for _, p := range s.Panics() {
 		first := strings.SplitN(p, "\n", 2)[0]
-		r.Violate(prop+"/panic/"+sc.Name+"/"+core.Hash(first)[:8], "scenario "+sc.Name+": panic in a controlled thread: "+clip(p, 1500), rp)
+		if i := strings.Index(first, ": "); i >= 0 && strings.HasPrefix(first, "thread ") {
+			first = shortName(first[len("thread "):i]) + ": " + first[i+2:] // "thread T1>judge#0: msg" -> "judge: msg"
+		}
+		r.Violate(prop+"/panic/"+sc.Name+"/"+clip(first, 120), "scenario "+sc.Name+": panic in a controlled thread: "+clip(p, 1500), rp)
 	}
 	for _, rc := range x.Races {
 		fp, what := raceFP(rc)
@@ -464,8 +471,10 @@ func diffKey(got string, seq []string) string {
 		for i := range gf {
 			if i >= len(sf) || gf[i] != sf[i] {
 				k := gf[i]
-				if j := strings.IndexAny(k, "=:"); j > 0 {
-					k = k[:j]
+				if !(len(k) > 2 && k[0] == 'T' && k[1] >= '0' && k[1] <= '9') { // a request's result stays whole, a state field gives its name
+					if j := strings.IndexAny(k, "=:"); j > 0 {
+						k = k[:j]
+					}
 				}
 				d = append(d, k)
 			}
